@@ -101,14 +101,18 @@ def extract(repo="/repo", config="all", target_tag=None, keep_target=True):
     meta_p = os.path.join(out, "meta.json")
     if os.path.exists(meta_p):
         os.utime(out, None)
-        return out, json.load(open(meta_p))
+        meta = json.load(open(meta_p))
+        meta["repo"] = repo          # the cache entry may come from another checkout with identical sources
+        return out, meta
     tag = target_tag or os.environ.get("NUTS_VERIF_TARGET_TAG") or config
     target = os.path.join(CACHE, "target-%s" % tag)
     os.makedirs(target, exist_ok=True)
     with open(os.path.join(CACHE, "target-%s.lock" % tag), "w") as lk:
         fcntl.flock(lk, fcntl.LOCK_EX)
         if os.path.exists(meta_p):
-            return out, json.load(open(meta_p))
+            meta = json.load(open(meta_p))
+            meta["repo"] = repo
+            return out, meta
         # cargo must not replay a stale run of the wrapper: drop workspace fingerprints
         fp = os.path.join(target, "debug", ".fingerprint")
         if os.path.isdir(fp):
